@@ -78,6 +78,42 @@ Proof.
   exact (fun RT => conj (tot_enc_hdr F h) (conj (tot_enc_mem F m) (fun B => conj (tot_p_hdr F RT b B) (tot_p_mem F RT b B)))).
 Qed.
 
+(* BincodeCodec is generic in the bincode configuration.  Besides standard(): big-endian varint,
+   fixed-width little endian (with_fixed_int_encoding(), legacy()) and fixed-width big endian - the same
+   round trip, locality and shape statements, for headers and members *)
+Theorem C20_other_bincode_configurations_roundtrip (F : fmt) (h : header sid) (m : member sid) (r : bytes) :
+  F = bincode_be_fmt \/ F = bincode_fixle_fmt \/ F = bincode_fixbe_fmt ->
+  (shdr_ok h -> s_p_hdr F (s_enc_hdr F h ++ r) = Some (h, r))
+  /\ (smem_ok m -> s_p_mem F (s_enc_mem F m ++ r) = Some (m, r))
+  /\ loc (s_p_hdr F) /\ loc (s_p_mem F)
+  /\ (shdr_ok h -> Forall (fun x => x < 256) (s_enc_hdr F h))
+  /\ (smem_ok m -> Forall (fun x => x < 256) (s_enc_mem F m) /\ 6 <= len (s_enc_mem F m) <= 27).
+Proof.
+  intros [->|[->| ->]].
+  - exact (conj (fun H => hdr_rt _ in16 in32 in64 bincode_be_rt in32_small h r (shdr_ok_r h H))
+          (conj (fun H => mem_rt _ in16 in32 in64 bincode_be_rt in32_small m r (smem_ok_r m H))
+          (conj (loc_hdr _ _ _ _ bincode_be_rt) (conj (loc_mem _ _ _ _ bincode_be_rt)
+          (conj (fun H => hdr_bytes _ bincode_be_by h H) (fun M => conj (mem_bytes _ bincode_be_by m M) (mem_len _ bincode_be_by m M))))))).
+  - exact (conj (fun H => hdr_rt _ in16 in32 in64 bincode_fixle_rt in32_small h r (shdr_ok_r h H))
+          (conj (fun H => mem_rt _ in16 in32 in64 bincode_fixle_rt in32_small m r (smem_ok_r m H))
+          (conj (loc_hdr _ _ _ _ bincode_fixle_rt) (conj (loc_mem _ _ _ _ bincode_fixle_rt)
+          (conj (fun H => hdr_bytes _ bincode_fixle_by h H) (fun M => conj (mem_bytes _ bincode_fixle_by m M) (mem_len _ bincode_fixle_by m M))))))).
+  - exact (conj (fun H => hdr_rt _ in16 in32 in64 bincode_fixbe_rt in32_small h r (shdr_ok_r h H))
+          (conj (fun H => mem_rt _ in16 in32 in64 bincode_fixbe_rt in32_small m r (smem_ok_r m H))
+          (conj (loc_hdr _ _ _ _ bincode_fixbe_rt) (conj (loc_mem _ _ _ _ bincode_fixbe_rt)
+          (conj (fun H => hdr_bytes _ bincode_fixbe_by h H) (fun M => conj (mem_bytes _ bincode_fixbe_by m M) (mem_len _ bincode_fixbe_by m M))))))).
+Qed.
+
+(* what the three formats are: the integer encodings *)
+Theorem C20_other_bincode_configurations_terms (v : N) :
+  bincode_be_fmt = mkFmt b_varint_be (b_p_varint_be 2) b_varint_be (b_p_varint_be 4) b_varint_be (b_p_varint_be 8)
+  /\ bincode_fixle_fmt = mkFmt (le_bytes 2) (p_le 2) (le_bytes 4) (p_le 4) (le_bytes 8) (p_le 8)
+  /\ bincode_fixbe_fmt = mkFmt (be_bytes 2) (p_be 2) (be_bytes 4) (p_be 4) (be_bytes 8) (p_be 8)
+  /\ b_varint_be v = (if v <=? 250 then [v] else if v <? 65536 then 251 :: be_bytes 2 v
+                      else if v <? 4294967296 then 252 :: be_bytes 4 v else 253 :: be_bytes 8 v)
+  /\ be_bytes 2 258 = [1; 2] /\ le_bytes 2 258 = [2; 1] /\ b_varint_be 300 = [251; 1; 44] /\ be_bytes 4 65536 = [0; 1; 0; 0].
+Proof. repeat split. Qed.
+
 (* Foca running with either bundled codec: whatever a failing encode_member leaves behind
    mid-feed, every datagram it emits is well formed (C07's statement), and it never panics *)
 Section WithFoca.
@@ -152,3 +188,5 @@ Print Assumptions C20_no_panic_with_bundled_codecs.
 Print Assumptions C20_example_values_ok.
 Print Assumptions C20_example_bincode.
 Print Assumptions C20_example_postcard.
+Print Assumptions C20_other_bincode_configurations_roundtrip.
+Print Assumptions C20_other_bincode_configurations_terms.
